@@ -3,7 +3,7 @@ import vlib
 CFG = dict(
     imports=["From Verif.Common Require Import Cas.", "From Verif.C19 Require Import Model Spec."],
     checker="check_case",
-    n=dict(quick=150, thorough=3000),
+    n=dict(quick=150, thorough=1800),
     shard=30,
     rule="cases 0-4 are scripted minimal witnesses (four handle-count findings, MaxAlloc retry after a crash); about 1 in 9 operations is an AutoAssign / AssignIP with MaxAllocToHandlePerIPVersion 1-2 (handles are shared between clients); each other case = one pool (2-8 blocks of 2-8 addresses), 1-3 hosts, an IPAM config (strict affinity / auto-allocate / "
          "block limit), and 1-3 clients of the REAL ipamClient each running 2-15 AutoAssign / AssignIP / ReleaseIPs / "
@@ -54,7 +54,7 @@ def replay(ctx, path):
     coq_term = case.get("coq")
     exe, log = vlib.go_build(ctx)
     if exe and args:
-        lines = vlib.run_driver(ctx, exe, args.split())
+        lines = [l for l in vlib.run_driver(ctx, exe, args.split()) if "coq" in l]
         if lines:
             coq_term = lines[-1]["coq"]
             print("re-ran the implementation: %s" % args)
